@@ -484,7 +484,8 @@ class Emitter:
         dct = self.try_ctype(n)
         if len(path) == 1 and dct and dct.rstrip("*").startswith("struct vf_"):
             path = [dct.rstrip("*")[len("struct "):]]  # class deriving from a modelled std container: base = the model
-        elif dct and dct.rstrip("*").startswith("struct " + path[-1] + "_"):
+        elif self.cfg.get("template_base_tags") and dct and dct.rstrip("*").startswith("struct " + path[-1] + "_"):
+            # (opt-in, config template_base_tags: specs written before this rule name the base member without arguments)
             # the last base is a template instantiation that clang prints without its arguments in the path: the
             # destination type of the cast names it completely (DelayedSimcallObserver -> DelayedSimcallObserver_bool)
             path[-1] = dct.rstrip("*")[len("struct "):]
